@@ -28,6 +28,8 @@ MAPS = (
     {'/static': ROOT, '': 'default.htm'},
     {'/s': {'filename': '/srv/p/'}, '/s/a.css': '/srv/special.css', '': {'filename': 'idx.xml', 'content_type': 'text/xml'}},
     {'/file.js': '/srv/one.js'},
+    # targets whose CONFIGURED name goes through a parent directory (a common deployment: static files next to the package)
+    {'/static': '../public', '/up.html': '../client/index.html', '/abs': ROOT + '/../shared'},
 )
 TYPES = {'css': 'text/css', 'gif': 'image/gif', 'html': 'text/html', 'jpg': 'image/jpeg', 'js': 'application/javascript',
          'json': 'application/json', 'png': 'image/png', 'txt': 'text/plain'}
@@ -77,7 +79,7 @@ def _check_static(path, mapping, f):
     return ''
 
 
-@cond(quick=dict(S=3, timeout=170, parts=dict(M=[0, 1, 5])), thorough=dict(S=4, timeout=2400, parts=dict(M=list(range(len(MAPS))))))
+@cond(quick=dict(S=3, timeout=170, parts=dict(M=[0, 1, 5, 6])), thorough=dict(S=4, timeout=2400, parts=dict(M=list(range(len(MAPS))))))
 def static_resolution(tail: str, mi: int) -> str:
     """
     pre: mi == P.M and len(tail) <= P.S
